@@ -173,6 +173,26 @@ func (g *gen) blob(max int) []int {
 	return b
 }
 
+// anyOrder: a set may be listed in any order: half of the time increasing, else reversed, one
+// adjacent pair exchanged, or shuffled.
+func (g *gen) anyOrder(s []int, allowed bool) []int {
+	if !allowed || len(s) < 2 || g.r.Intn(2) == 0 {
+		return s
+	}
+	switch g.r.Intn(3) {
+	case 0:
+		for i, j := 0, len(s)-1; i < j; i, j = i+1, j-1 {
+			s[i], s[j] = s[j], s[i]
+		}
+	case 1:
+		i := g.pick([]int{0, len(s) - 2, g.r.Intn(len(s) - 1)})
+		s[i], s[i+1] = s[i+1], s[i]
+	default:
+		g.r.Shuffle(len(s), func(i, j int) { s[i], s[j] = s[j], s[i] })
+	}
+	return s
+}
+
 func (g *gen) typeSet(limit int) []int {
 	n := g.pick([]int{0, 1, 2, 3, 6, 12})
 	set := map[int]bool{}
@@ -320,14 +340,14 @@ func (g *gen) value(e wire.Entry, maxBlob int) interface{} {
 		}
 		return b
 	case "bitmap":
-		return g.typeSet(0)
+		return g.anyOrder(g.typeSet(0), g.exotic) // out of order only in single-record messages (may be refused)
 	case "bitmap0":
 		if g.exotic {
 			return g.typeSet(128)
 		}
 		return []int{}
 	case "u16list":
-		return g.typeSet(0)
+		return g.anyOrder(g.typeSet(0), true)
 	case "names":
 		n := g.r.Intn(4)
 		out := make([][][]int, n)
